@@ -191,6 +191,12 @@ def run(ctx):
                             continue
                         if t15.replace("static ", "").strip() in ("bool", "_Bool", "std::once_flag", "std::atomic<bool>", "std::atomic_bool"):
                             continue             # a once-only flag (a warning printed once) carries no value of the state
+                        # what is remembered has to be recognised again: the variable (or a sibling declared with it) is read in a
+                        # condition; a scratch buffer that every call fills afresh is not
+                        conds15 = [A.kids(y)[0] for y in A.walk(uu15.body(f15)) if y.get("kind") in ("IfStmt", "WhileStmt", "ConditionalOperator") and A.kids(y)] + \
+                                  [k_ for y in A.walk(uu15.body(f15)) if y.get("kind") == "ForStmt" for k_ in y.get("inner", [])[2:3] if isinstance(k_, dict)]
+                        if not any(z.get("kind") == "DeclRefExpr" and (z.get("referencedDecl") or {}).get("id") == d15["id"] for c_ in conds15 for z in A.walk(c_)):
+                            continue
                         bad15.append((q15, d15))
     ctx.require(n15 >= 8, "R12.15: only %d functions of the save / load pipeline found" % n15)
     ctx.ob("R12.15", "save / load pipeline: variables that outlive a call", not bad15, site=A.where(bad15[0][1]) if bad15 else A.where(us.function("save_to_file")),
